@@ -22,11 +22,12 @@ Descs ==
   \cup {D(p, "none", FALSE, FALSE, "", FALSE, FALSE) : p \in Bare}         \* child without blocks
   \cup {D("", "none", FALSE, FALSE, p, FALSE, FALSE) : p \in Bare}         \* includer
   \cup {D(p, "none", TRUE, FALSE, "", FALSE, FALSE) : p \in Bare}          \* child with an orphan block
+  \cup {D("", "def", FALSE, FALSE, "", TRUE, FALSE),                      \* component provider
+        D("", "none", FALSE, FALSE, "", FALSE, TRUE)}                     \* component user
   \cup (IF Universe = "full"
-        THEN {D("", "def", FALSE, FALSE, "", TRUE, FALSE),                 \* component provider
-              D("", "none", FALSE, FALSE, "", FALSE, TRUE),                \* component user
-              D("A", "def", FALSE, FALSE, "", FALSE, FALSE),               \* child overriding a without super
-              D("", "def", TRUE, FALSE, "", FALSE, FALSE)}                 \* root with blocks a and z
+        THEN {D("A", "def", FALSE, FALSE, "", FALSE, FALSE),               \* child overriding a without super
+              D("", "def", TRUE, FALSE, "", FALSE, FALSE),                 \* root with blocks a and z
+              D("", "none", FALSE, FALSE, "A", TRUE, FALSE)}               \* component provider whose body includes A
         ELSE {})
 SecondDescs == {d \in Descs : d.ext = "" /\ d.inc = "" /\ ~d.z} \cup {D("A", "super", FALSE, FALSE, "", FALSE, FALSE)}
 Batches == {<<<<n, d>>>> : n \in Names, d \in Descs}
